@@ -504,6 +504,16 @@ func checkC13(r *mon.Run) {
 		}
 		bases = append(bases, baseImg{"gen:" + l2.ClassCoarse(), b, nil})
 	}
+	// consistent images whose data-directory array is shorter than usual, down to none at all
+	// (the certificate-table entry, index 4, does not exist below 5): accepted or refused, never a crash
+	for n := 0; n <= 6; n++ {
+		for _, plus := range []bool{true, false} {
+			rng := mon.Rand(r.Seed, "C13", "few-directories", n, plus)
+			l := gen.PELayout{PE32Plus: plus, Lfanew: 0x80, NumRva: n, NSec: 2, Order: "file", SecSizes: []int{96, 200}, Trailing: n * 3}
+			b, _ := gen.BuildPE(rng, l)
+			bases = append(bases, baseImg{fmt.Sprintf("gen:%d-data-directories", n), b, nil})
+		}
+	}
 	if r.Thorough() {
 		bases = append(bases, baseImg{"HelloWorld.efi.signed", repoFile("tests/data/binary/HelloWorld.efi.signed"), nil})
 	}
